@@ -33,7 +33,7 @@ RULE = (
 ASSUMPTIONS = ["C14 claims purity, not totality: an observer raising is counted, not a violation",
                "mutating a *shallow* copy's containers may legitimately affect the original and is not generated"]
 
-OBSERVERS = ["read_all", "read_deep", "bytes", "len", "eq_self", "eq_equal", "bool", "repr", "to_dict_camel", "to_dict_snake",
+OBSERVERS = ["read_all", "read_deep", "bytes", "len", "eq_self", "eq_equal", "eq_other", "bool", "repr", "to_dict_camel", "to_dict_snake",
              "to_dict_defaults", "to_json", "to_pydict", "to_pydict_defaults", "is_set_all", "which_one_of_all", "hash_free_compare"]
 
 
@@ -60,6 +60,7 @@ def targets(ctx):
         return guard("from_dict", cls().from_dict, json.loads(json.dumps(d)))
 
     _mode = ["sow"]
+    _others = []
 
     def state(m, mi):
         b = guard("bytes", bytes, m)
@@ -139,6 +140,11 @@ def targets(ctx):
         elif what in ("eq_equal", "hash_free_compare"):
             m == equal
             equal == m
+        elif what == "eq_other":
+            # compared with a DIFFERENT message of its class (other fields set, other oneof members selected), both ways
+            for o in _others:
+                m == o
+                o == m
         elif what == "bool":
             bool(m)
         elif what == "repr":
@@ -210,6 +216,21 @@ def targets(ctx):
         try:
             m = obtain(name, tree, case["source"], case.get("unknown", []), case.get("pos", []))
             equal = obtain(name, tree, case["source"], case.get("unknown", []), case.get("pos", []))
+            _others[:] = [guard("construct_other", adapter.build, c.bp(name), mi, t) for t in case.get("other_trees", [])] + [c.bp(name)()]
+            if case.get("bytearrays"):
+                # bytes fields handed over as bytearray objects (what a receive buffer is): read-only operations must not
+                # write into them either
+                for fi_ in mi.fields:
+                    if fi_.type == "bytes" and fi_.wkt is None and fi_.name in tree:
+                        for obj_ in (m, equal):
+                            v_ = getattr(obj_, BPInfo.of(type(obj_)).pyname(fi_))
+                            if isinstance(v_, bytes):
+                                setattr(obj_, BPInfo.of(type(obj_)).pyname(fi_), bytearray(v_))
+                            elif isinstance(v_, list):
+                                v_[:] = [bytearray(x) for x in v_]
+                            elif isinstance(v_, dict):
+                                for k_ in list(v_):
+                                    v_[k_] = bytearray(v_[k_])
             set0 = is_set_vec(m)  # before anything reads the message
             j0 = json_state(m)  # the JSON form before anything else (also of the harness) has looked inside the message
             sow0 = sow_vec(m)  # ... and before anything encodes it
@@ -308,6 +329,7 @@ def targets(ctx):
         return Eval(fails, nontrivial=marks and len(case["observers"]) >= 2, labels=labs)
 
     base = cm.msg_tree_strategy(c)
+    _ts = cm.tree_strats(c)
     # Known finding (see known_findings.json, probed by the fixed target below): include_default_values=True recurses
     # without bound on message types that reach a recursive message. Excluded from generation by construction so
     # that the search continues behind it; the exclusions are counted.
@@ -329,6 +351,10 @@ def targets(ctx):
         case["observers"] = obs
         case["copies"] = draw(st.lists(st.sampled_from(["copy", "deepcopy", "pickle"]), min_size=1, max_size=3))
         case["mut"] = draw(st.integers(0, 40))
+        if "eq_other" in obs:
+            case["other_trees"] = draw(st.lists(_ts.message(f"ks.{case['msg']}"), min_size=1, max_size=2))
+        if case["source"] == "construct" and draw(st.integers(0, 3)) == 0:
+            case["bytearrays"] = True
         return case
 
     # dense values (many fields of the container-heavy messages) under at least two observers
